@@ -461,7 +461,11 @@ Definition reinsert (cf : conf) (me : nat) (x : item) : prog (option unit) :=
         Act (a_place (c_ord cf) 1 (snd hh) x (c_ps cf)) (fun w1 =>
           if Nat.eqb (vn w1) 1 then
             bindo (relocate cf relocate_limit me 1 (hashes cf (match vl w1 with y :: _ => key_of y | [] => key_of x end))) (fun _ => oret tt)
-          else oret tt)) in
+          else
+            (* neither loop found room: the item is not re-inserted (the sequential defect of property C17).
+               The marker is a ghost event of the model only (the harness cannot emit it): the check removes it
+               before comparing the logs, the theorems are stated for traces without it. *)
+            Emit [EvCli "dropped" [Z.of_nat (key_of x)]] (oret tt))) in
   let place1 : prog (option unit) :=
     Act (a_place (c_ord cf) 0 (fst hh) x (c_th cf)) (fun v0 =>
       if Nat.eqb (vn v0) 1 then oret tt
